@@ -93,7 +93,16 @@ impl Isolated {
             return Ok(());
         }
         let exe = std::env::current_exe().map_err(|e| e.to_string())?;
-        let mut child = Command::new(exe)
+        // own process group: the worker's solver processes (shim, z3) die with it when it is killed
+        use std::os::unix::process::CommandExt;
+        // address-space limit (inherited by the shim and z3): a runaway solver query fails in its own
+        // process instead of exhausting the machine (PV_WORKER_MEM_KB, default 8 GB per process)
+        let mem_kb = std::env::var("PV_WORKER_MEM_KB").ok().and_then(|s| s.parse::<u64>().ok()).unwrap_or(8_000_000);
+        let mut child = Command::new("sh")
+            .process_group(0)
+            .arg("-c")
+            .arg(format!("ulimit -v {}; exec \"$0\" \"$@\"", mem_kb))
+            .arg(exe)
             .args(["--worker", &self.prop_id, self.tier.name()])
             .stdin(Stdio::piped())
             .stdout(Stdio::piped())
@@ -125,6 +134,12 @@ impl Isolated {
 
     fn kill(&mut self) -> String {
         if let Some((mut child, _, _)) = self.child.take() {
+            // the whole group (pgid == worker pid), then the worker itself
+            let _ = Command::new("kill")
+                .args(["-KILL", "--", &format!("-{}", child.id())])
+                .stdout(Stdio::null())
+                .stderr(Stdio::null())
+                .status();
             let _ = child.kill();
             match child.wait() {
                 Ok(st) => format!("{}", st),
@@ -193,6 +208,20 @@ impl Drop for Isolated {
 
 /// `pvcheck --worker <id> <tier>`: judge cases read from stdin, one result line per case.
 pub fn worker_main(prop: &dyn Prop, tier: Tier) -> i32 {
+    // if the engine process disappears (killed from outside, watchdog exit) take the solver
+    // processes of this worker down with it instead of leaving them running
+    let parent = std::os::unix::process::parent_id();
+    std::thread::spawn(move || loop {
+        std::thread::sleep(Duration::from_millis(500));
+        if std::os::unix::process::parent_id() != parent {
+            let _ = Command::new("kill")
+                .args(["-KILL", "--", &format!("-{}", std::process::id())])
+                .stdout(Stdio::null())
+                .stderr(Stdio::null())
+                .status();
+            std::process::exit(3);
+        }
+    });
     if let Err(e) = prop.setup(tier) {
         println!("PVRESULT {}", json!({"ok": false, "sig": "harness/setup", "detail": e}));
         return 2;
